@@ -18,7 +18,10 @@ Export == (nrepl = MaxRepl /\ nwrites = MaxWrites) => PrintT(<<"BEH", ToJson(his
 ArmNames == <<"tomb-tomb", "tomb-absent", "tomb-over-live", "live-onto-tomb", "new-entry", "addconflict-keep",
               "addconflict-replace", "merge-into-recycled", "merge-recycle", "merge-revive", "merge",
               "unique-clash", "addconflict-survivor-in-unique-clash", "conflict-copy-created", "nothing-to-supply", "refused-refresh", "refused-unwilling",
-              "refused-critical", "refused-nooverlap">>
+              "refused-critical", "refused-nooverlap",
+              "merge-dn-unsent-some-right", "merge-dn-unsent-none-right", "merge-dn-some-some-left", "merge-dn-some-some-right",
+              "merge-dn-some-none-left", "merge-dn-some-none-right", "merge-dn-none-some-left", "merge-dn-none-some-right",
+              "merge-dn-none-none-left", "merge-dn-none-none-right">>
 ArmIdx(a) == 10 + CHOOSE i \in 1..Len(ArmNames) : ArmNames[i] = a
 ASSUME \A i \in 1..Len(ArmNames) : TLCSet(10 + i, 0)
 ArmExport == \A a \in arms :
